@@ -192,16 +192,19 @@ Record gstate := mkg {
   g_mono_intronic : bool;            (* args.require_monointronic_polya *)
   g_mono_exonic : bool;              (* args.require_monoexonic_polya *)
   g_unaligned : Z;                   (* DatasetProcessor.alignment_stat_counter[unaligned] *)
-  g_detected : list Z                (* GraphBasedModelConstructor.detected_known_isoforms of the main process *)
+  g_detected : list Z;               (* GraphBasedModelConstructor.detected_known_isoforms of the main process *)
+  g_replicas : bool                  (* args.use_technical_replicas: preset by isoquant.py, re-derived by process_sample for every experiment *)
 }.
 Record experiment := mke {
   e_polya_high : bool;               (* polyA fraction >= polya_percentage_threshold *)
   e_unmapped : Z;                    (* sum of bam.unmapped over the experiment's files *)
   e_stat_not_aligned : Z;            (* sum of the per-chromosome __not_aligned statistics (always 0 in the code) *)
-  e_chroms : list (list (list Z))    (* per chromosome, per region: the known isoforms that pass the thresholds *)
+  e_chroms : list (list (list Z));   (* per chromosome, per region: the known isoforms that pass the thresholds *)
+  e_nfiles : Z                       (* len(sample.file_list) *)
 }.
-(* what is observable of one experiment: the three construction flags, the __not_aligned line, the reported known isoforms *)
-Record eout := mko { o_requires : bool; o_mono_intronic : bool; o_mono_exonic : bool; o_not_aligned : Z; o_known : list (list (list Z)) }.
+(* what is observable of one experiment: the three construction flags, the __not_aligned line, the reported known isoforms, the replica flag *)
+Record eout := mko { o_requires : bool; o_mono_intronic : bool; o_mono_exonic : bool; o_not_aligned : Z; o_known : list (list (list Z));
+                     o_replicas : bool (* use_technical_replicas as the model constructor sees it: the replica filter for novel transcripts *) }.
 
 Fixpoint known_seq (chroms : list (list (list Z))) (d : list Z) : list (list (list Z)) * list Z :=
   match chroms with [] => ([], d) | c :: t => let '(r, d1) := chr_known c d in let '(rs, d2) := known_seq t d1 in (r :: rs, d2) end.
@@ -210,29 +213,33 @@ Definition not_aligned_line (unaligned stat : Z) : Z := if 0 <? unaligned then u
 (* current code; pool = (threads > 1): forked workers start from the main process's set and the main process never learns theirs.  In pool
    mode every chromosome is given the main process's set: that a worker's own additions (isoforms of the chromosomes it ran before) have no
    effect is the frame lemma detected_frame / detected_schedule_independent, isoform ids being unique in the annotation *)
-Definition process_sample_cur (st : polya_strategy) (pool : bool) (e : experiment) (g : gstate) : eout * gstate :=
+(* rgfn: args.read_group == "file_name" (an option of the invocation, never modified while experiments are processed);
+   args.use_technical_replicas = rgfn and len(sample.file_list) > 1 is derived from it for every experiment, not from its previous value *)
+Definition replicas_flag (rgfn : bool) (e : experiment) : bool := rgfn && (1 <? e_nfiles e).
+Definition process_sample_cur (st : polya_strategy) (rgfn : bool) (pool : bool) (e : experiment) (g : gstate) : eout * gstate :=
   let requires := set_strategy (e_polya_high e) st in
   let mi := set_strategy (g_mono_intronic g || requires) st in
   let me := set_strategy (g_mono_exonic g || requires) st in
   let un := g_unaligned g + e_unmapped e in
   let '(known, d) := if pool then (map (fun c => fst (chr_known c (g_detected g))) (e_chroms e), g_detected g)
                      else known_seq (e_chroms e) (g_detected g) in
-  (mko requires mi me (not_aligned_line un (e_stat_not_aligned e)) known, mkg mi me un d).
+  (mko requires mi me (not_aligned_line un (e_stat_not_aligned e)) known (replicas_flag rgfn e), mkg mi me un d (replicas_flag rgfn e)).
 (* repaired: fixes/C10_sticky_flags.diff (the strategy's own defaults dflt_mi, dflt_me are or-ed in, not the previous experiment's
    result), fixes/C10_unaligned_per_sample.diff (the counter is reset per experiment), fixes/C10_reset_class_state.diff *)
-Definition process_sample_fix (dflt_mi dflt_me : bool) (st : polya_strategy) (pool : bool) (e : experiment) (g : gstate) : eout * gstate :=
+Definition process_sample_fix (dflt_mi dflt_me : bool) (st : polya_strategy) (rgfn : bool) (pool : bool) (e : experiment) (g : gstate) : eout * gstate :=
   let requires := set_strategy (e_polya_high e) st in
   let mi := set_strategy (dflt_mi || requires) st in
   let me := set_strategy (dflt_me || requires) st in
   let un := e_unmapped e in
   let known := map (fun c => fst (chr_known_fix c (g_detected g))) (e_chroms e) in
-  (mko requires mi me (not_aligned_line un (e_stat_not_aligned e)) known, mkg mi me un (g_detected g)).
+  (mko requires mi me (not_aligned_line un (e_stat_not_aligned e)) known (replicas_flag rgfn e), mkg mi me un (g_detected g) (replicas_flag rgfn e)).
 Section Samples.
   Context {E G Out : Type} (step : E -> G -> Out * G).
   Fixpoint run_samples (es : list E) (g : G) : list Out :=
     match es with [] => [] | e :: t => let '(o, g') := step e g in o :: run_samples t g' end.
 End Samples.
-Definition init_state (dflt_mi dflt_me : bool) : gstate := mkg dflt_mi dflt_me 0 [].
+(* set_data_dependent_options presets args.use_technical_replicas = (read_group == "file_name") *)
+Definition init_state (dflt_mi dflt_me rgfn : bool) : gstate := mkg dflt_mi dflt_me 0 [] rgfn.
 
 (* ================================================================ 5. combine_counts *)
 (* a table: rows (feature, value) in file order; feature ids interned order-preservingly, values scaled to integers.
